@@ -106,7 +106,7 @@ func runC18(c *Ctx) {
 	R.Ob("Client/recipient list cleared at a transaction boundary", "-", okMail || okClose,
 		"neither Mail (before/after the MAIL command at "+whereMail+") nor dataCloser.Close clears Client.rcpts on every path: the second LMTP transaction on a connection expects the first transaction's recipients again (callbacks fire for stale recipients and Close waits for replies that never come)")
 	if f := c.A.Func("(*Client).Reset"); f != nil {
-		R.Ob("(*Client).Reset/clears rcpts", c.P.Pos(f.Pos()), len(s.Find(f, "st:Client.rcpts=nil")) >= 1, "Reset no longer clears the recipient list")
+		R.Ob("(*Client).Reset/clears rcpts", c.P.Pos(f.Pos()), len(s.FindMay(f, "st:Client.rcpts=nil")) >= 1, "Reset no longer clears the recipient list")
 	}
 
 	R.Rule("R-client-parse", "E4 + who-may-call", "every per-recipient reply that does not match the expected code reaches Close as an *SMTPError (whatever its class), so Close can attribute it and go on to the next recipient", 4)
@@ -340,9 +340,21 @@ func ruleRcptsRecorded(c *Ctx) {
 			// the end-of-data exchange. A refused DATA (or anything else) leaves the transaction — and the accepted
 			// recipients — in place on the server; DATA may be retried and is then answered once per recipient
 			fn := funcName(st.Parent())
-			okPlace := fn == "(*Client).Mail" || fn == "(*Client).Reset" || closeScope[fn]
+			boundary := func(n string) bool { return n == "(*Client).Mail" || n == "(*Client).Reset" || closeScope[n] }
+			okPlace := boundary(fn)
+			if g := st.Parent(); !okPlace && !isExported(g) && g.Parent() == nil {
+				// an unexported helper (forgetRecipients): judged by who calls it
+				callers := c.callersOf(g)
+				okPlace = len(callers) > 0
+				for _, cs := range callers {
+					if !boundary(funcName(cs.Parent())) {
+						okPlace = false
+						fn = funcName(cs.Parent()) + " (through " + funcName(g) + ")"
+					}
+				}
+			}
 			R.Ob(c.siteKey(st, "recipients dropped only at a transaction boundary"), c.P.InstrPos(st), okPlace, fn+" clears Client.rcpts although the server's transaction (and its accepted recipients) is still open: a later DATA in the same transaction is answered once per recipient, but Close waits for none — the statuses are lost and the unread replies are taken for the answers to the next commands")
-			if fn == "(*Client).Reset" {
+			if funcName(st.Parent()) == "(*Client).Reset" {
 				c.obFactMatch("recipients dropped by Reset only after the server agreed", st, `^\(\*Client\)\.cmd\(param0,250,"RSET",.*\)#2 == nil$`, "Reset drops the recipients although RSET was not accepted")
 			}
 			continue
